@@ -27,10 +27,20 @@ pub enum Ev {
     Wait { skip: u32 },
     Desync { frame: i32, local: u128, remote: u128, addr: Addr },
 }
+/// Number of handshake round trips the library announces as `total` in its Synchronizing events, learnt from the events
+/// themselves (0 = none seen yet in this process). The property ties Running to "as many matched round trips as the
+/// Synchronizing events announce", not to a particular number.
+pub static SYNC_TOTAL: std::sync::atomic::AtomicU32 = std::sync::atomic::AtomicU32::new(0);
+pub fn sync_total() -> u32 {
+    SYNC_TOTAL.load(std::sync::atomic::Ordering::Relaxed)
+}
 impl Ev {
     pub fn from<P: Pred>(e: GgrsEvent<Cfg<P>>) -> Ev {
         match e {
-            GgrsEvent::Synchronizing { addr, total, count } => Ev::Synchronizing { addr, total, count },
+            GgrsEvent::Synchronizing { addr, total, count } => {
+                SYNC_TOTAL.store(total, std::sync::atomic::Ordering::Relaxed);
+                Ev::Synchronizing { addr, total, count }
+            }
             GgrsEvent::Synchronized { addr } => Ev::Synchronized { addr },
             GgrsEvent::Disconnected { addr } => Ev::Disconnected { addr },
             GgrsEvent::NetworkInterrupted { addr, disconnect_timeout } => Ev::Interrupted { addr, timeout: disconnect_timeout },
@@ -753,9 +763,12 @@ impl<P: Pred> World<P> {
                 let net = core.net.borrow();
                 addrs.iter().map(|a| net.matched_roundtrips(addr, *a)).collect()
             };
-            let all = counts.iter().all(|c| *c >= 5);
+            // required = the total the library's own Synchronizing events announce; before any such event was seen in this
+            // process a session can only be judged for being Running without a single completed round trip
+            let need = sync_total();
+            let all = if need == 0 { running && counts.iter().all(|c| *c >= 1) } else { counts.iter().all(|c| *c >= need) };
             if running != all {
-                let d = format!("current_state() Running = {running}, matched round trips per remote {addrs:?} = {counts:?} (5 required)");
+                let d = format!("current_state() Running = {running}, matched round trips per remote {addrs:?} = {counts:?} ({need} announced as total)");
                 core.viol("C12", addr, t, "Running does not coincide with completed handshakes", d);
             }
         }
